@@ -90,18 +90,35 @@ template <class B, class R> struct verif_is_alg<AlgebraicConstraint<B, R>> : std
 
 class RecModelAPI : public RecCommon, public EnvKeeper, public BasicFlatModelAPI {
   using BaseModelAPI = BasicFlatModelAPI;
-  std::map<std::string, int> type_count_;
+  std::map<std::string, int> type_count_, type_announced_;
+  const FlatModelInfo *fmi_ = nullptr;
 
 public:
   RecModelAPI(Env &e) : EnvKeeper(e) {}
   static const char *GetTypeName() { return "RecModelAPI"; }
   void InitCustomOptions() {}
 
-  void InitProblemModificationPhase(const FlatModelInfo *) {
+  void InitProblemModificationPhase(const FlatModelInfo *fmi) {
+    fmi_ = fmi;
     if (auto f = lp()->rec) fprintf(f, "{\"e\":\"InitProblemModificationPhase\"}\n");
   }
   void FinishProblemModificationPhase() {
-    if (auto f = lp()->rec) { fprintf(f, "{\"e\":\"FinishProblemModificationPhase\"}\n"); fflush(f); }
+    if (auto f = lp()->rec) {
+      // what the converter announced (FlatModelInfo) next to what it delivered: per constraint group and per type
+      if (fmi_) {
+        std::string g = "{", t = "{";
+        for (int k = 0; k < 12; ++k) {
+          int an = fmi_->GetNumberOfConstraintsOfGroup(k);
+          auto it = lp()->ncons_by_group.find(k);
+          int de = it == lp()->ncons_by_group.end() ? 0 : it->second;
+          if (an || de) g += std::string(g.size() > 1 ? "," : "") + "\"" + std::to_string(k) + "\":[" + std::to_string(an) + "," + std::to_string(de) + "]";
+        }
+        for (auto &kv : type_announced_)
+          t += std::string(t.size() > 1 ? "," : "") + verif::jstr(kv.first.c_str()) + ":[" + std::to_string(kv.second) + "," + std::to_string(type_count_[kv.first]) + "]";
+        fprintf(f, "{\"e\":\"ModelInfo\",\"groups\":%s},\"types\":%s}}\n", g.c_str(), t.c_str());
+      }
+      fprintf(f, "{\"e\":\"FinishProblemModificationPhase\"}\n"); fflush(f);
+    }
   }
 
   void AddVariables(const VarArrayDef &v) {
@@ -173,6 +190,7 @@ public:
     if (g == CG_Quadratic) ++m->nquadcons;
     std::string tn = Con::GetTypeName();
     int k = type_count_[tn]++;
+    if (fmi_) type_announced_[tn] = fmi_->GetNumberOfConstraints(typeid(Con));
     if (auto f = m->rec)
       fprintf(f, "{\"e\":\"Con\",\"type\":%s,\"grp\":%d,\"gi\":%d,\"ti\":%d,\"name\":%s,\"d\":%s}\n",
               verif::jstr(tn.c_str()).c_str(), g, idx_in_group, k, verif::jstr(c.name()).c_str(),
